@@ -1,7 +1,8 @@
 (* Extraction of the C04 abstract machine, certificate checker and trace-conformance
    decision to OCaml.  ExtrOcamlBasic only; nat/Z stay Coq datatypes. *)
 From Coq Require Import ZArith List ExtrOcamlBasic.
-Require Import ZV.Model.Bytecode ZV.Model.Verifier.
+Require Import ZV.Model.Bytecode ZV.Model.Verifier ZV.Model.Resident.
 Extraction "model.ml" Z.add Z.mul Z.opp Z.div_eucl Z.of_nat Z.to_nat Z.compare
   eff targets find_loop asucc check_fn check_state flows mem entry_state tail_entry_unique
-  effect_ok return_ok enter_ok rest_depths at_rest run_finish astate_eqb.
+  effect_ok return_ok enter_ok rest_depths at_rest run_finish astate_eqb
+  compile exec_fate exec_history obs_of i_new quiet at_rest_all.
